@@ -83,7 +83,7 @@ theorem PInv.stepA (hI : Closed I) {q : PB} (h : PInv I q) {st : Stim} {p' : PS}
               exact g2
             · rename_i hm
               have := Option.some.inj hq; subst this
-              have g1 := hI.stepL h.inv (CStepL.dlv (absB q) m rest (deafE q.p.a) hba) h.neA
+              have g1 := hI.stepL h.inv (CStepL.dlv (absB q) m rest (deafE q.p.a) hba (deafE_eq q.p.a)) h.neA
               have g2 := inv_settleL hI (q := q) (w := .msg m) g1 (bview_deliver_msg q.p.a m hm).symm hne
               simp only [stimOp, hba]
               exact g2
